@@ -78,6 +78,10 @@ def make_class(world, spec):
             when, code = f
             if when == 'all' or when == n:
                 world.fired.append((name, cb, n))
+                if code == 'D':
+                    # the exception a plugin uses to say that it cannot work here, raised late (from a callback)
+                    from deep.api.plugin import DidNotEnable
+                    raise DidNotEnable('%s.%s call %d' % (name, cb, n))
                 raise (PluginBaseFault if code == 'B' else PluginFault)('%s.%s call %d' % (name, cb, n))
 
     def __init__(self, config=None):
